@@ -157,7 +157,7 @@ func c12Values() []any {
 	const p53 = int64(1) << 53
 	vs := []any{
 		nil, true, false, []int{1}, time.Duration(5), map[string]any{"a": 1}, struct{}{},
-		"", "a", "b", "ab", "5", "5.0", "a\\b", "a\\\\b", "a\nb", "a\\nb", "a\rb", "a\r\nb", "\xff", "\xef\xbf\xbd", "a&&b", "a||b", "a(b", "A", "\xc3\xa9", "a\"b", "a\tb", "a\\tb",
+		"", "a", "b", "ab", "5", "5.0", "a\\b", "a\\\\b", "a\nb", "a\\nb", "a\rb", "a\r\nb", "\xff", "\xef\xbf\xbd", "a&&b", "a||b", "a(b", "A", "\xc3\xa9", "a\"b", "a\tb", "a\\tb", "\xe9", "caf\xe9", "caf\xc3\xa9",
 		0.0, math.Copysign(0, -1), 0.5, 1.5, -1.5, 5.0, -5.0, 0.1, 4.999999999999999, 5.000000000000001, float64(p53), float64(p53) + 2, -float64(p53), float64(p53) - 1,
 		9223372036854775808.0, 18446744073709551616.0, 1e300, -1e300, math.SmallestNonzeroFloat64, math.MaxFloat64, math.NaN(), math.Inf(1), math.Inf(-1),
 		0.30000000000000004, 123456789.12345679, 1e-6,
@@ -211,6 +211,7 @@ func c12Lits() []string {
 		"100000000000000000000000000000.0",
 		"''", "'a'", "'b'", "'ab'", "'5'", "'A'", "'a\\\\b'", "'a\\nb'", "'a\\tb'", "'a\\qb'", "'a\\'", "'a\"b'", "'a\\\"b'", "'\xff'", "'\xef\xbf\xbd'", "'\xc3\xa9'", "'a\rb'", "'a\r\nb'", "'a\nb'",
 		"'a&&b'", "'a||b'", "'a(b'", "'a b'", "' a'", "'\\x41'", "'\\u0041'", "'a\tb'",
+		"'\\xe9'", "'\\351'", "'caf\\xe9'", // numeric escapes above ASCII: the code point (UTF-8), not the byte (see c12esc.go)
 	}
 }
 
@@ -373,7 +374,11 @@ func runC12(tier string, seed uint64, o *Out) error {
 		o.Line("%s", l)
 	}
 	o.Count(fmt.Sprintf("sql_predicates_%d", len(preds)))
-	// (5) one compiled predicate evaluated by several goroutines at once (harness/c12k.go)
+	// (5) escaped string literals against rows holding both readings of the literal (harness/c12esc.go)
+	if err := runC12Esc(tier, seed, o); err != nil {
+		return err
+	}
+	// (6) one compiled predicate evaluated by several goroutines at once (harness/c12k.go)
 	return runC12K(tier, seed, rng, o)
 }
 
